@@ -13,7 +13,7 @@ PROP = {
     "level_note": "Trusted: Lean kernel + 3 standard axioms; the hand model's faithfulness as exercised by the correspondence stream; "
                   "fancy_regex on the coordinate regex (modelled in C17); Rust f64 FromStr acceptance grammar (modelled, sampled); "
                   "ASCII-only upper-casing.",
-    "expect_theorems": ["C09_tables_match_source", "C09_terminates", "C09_terminates_fails", "C09_lex_invariant", "C09_lex1_render", "C09_no_panic", "C09_clean_partial", "C09_no_panic_ast", "C09_identity_partial", "C09_translate_ref", "C09_translate_nonref", "C09_translate_partial"],
+    "expect_theorems": ["C09_kernels_match_source", "C09_tables_match_source", "C09_terminates", "C09_terminates_fails", "C09_lex_invariant", "C09_lex1_render", "C09_no_panic", "C09_clean_partial", "C09_no_panic_ast", "C09_identity_partial", "C09_translate_ref", "C09_translate_nonref", "C09_translate_partial"],
     "rule": "formulas generated from the AST grammar of the property (depth <= 6, <= 110 chars; operators incl. two-character comparators, "
             "unary +/-, %, nested calls with empty arguments, parenthesised unions, intersections, string literals with embedded quotes, "
             "numbers incl. scientific, booleans, all 7 error literals, names incl. ones that start like a coordinate, relative/absolute/mixed "
